@@ -607,9 +607,64 @@ pub fn run(ctx: &Ctx) -> i32 {
         Acc::merge,
         acc_zero,
     );
-    let acc = Acc::merge(Acc::merge(a1, a2), a3);
+    // (c) long texts: three data with a gap of every length 0..=9000 bytes between the first and the second (blanks,
+    // line ends, comment lines that look like code); a host loop over the remaining text must visit exactly the three
+    // data, whatever the length of the text
+    let units: [&str; 4] = [" ", "\n \t", "; was (set! limit 10) \"x\n", ";;; #| ( ]\n  "];
+    let gap_max = 9000u64;
+    let a4 = par_fold(
+        units.len() as u64 * (gap_max + 1),
+        64,
+        || (),
+        |_, acc, i| {
+            let unit = units[(i / (gap_max + 1)) as usize];
+            let len = (i % (gap_max + 1)) as usize;
+            let filler: String = unit.chars().cycle().take(len).collect();
+            // the line end closes a comment the cut may have left open
+            let text = format!("(first 1){}\n(second \"s\") third", filler);
+            acc.evals += 1;
+            let mut seen: Vec<String> = vec![];
+            let mut rest: Option<&str> = Some(&text);
+            let mut problem: Option<String> = None;
+            while let Some(t) = rest {
+                if t.trim().is_empty() || seen.len() > 5 {
+                    break;
+                }
+                match std::panic::catch_unwind(|| parse::parse_text(t)) {
+                    Err(e) => {
+                        problem = Some(format!("panic: {}", panic_message(&e)));
+                        break;
+                    }
+                    Ok(Err(e)) => {
+                        problem = Some(format!("error {:?} at remaining text {:?}", e, &t[..t.len().min(40)]));
+                        break;
+                    }
+                    Ok(Ok((c, r))) => {
+                        seen.push(format!("{:#}", c));
+                        if let Some(r) = r {
+                            if !text.ends_with(r) || r.starts_with(char::is_whitespace) || r.starts_with(';') {
+                                problem = Some(format!("remaining text {:?} does not begin at the next token", &r[..r.len().min(40)]));
+                                break;
+                            }
+                        }
+                        rest = r;
+                    }
+                }
+            }
+            if problem.is_none() && seen != ["(first 1)", "(second \"s\")", "third"] {
+                problem = Some(format!("the loop visited {:?}", seen));
+            }
+            match problem {
+                None => acc.nontrivial += 1,
+                Some(p) => viol(acc, &format!("(first 1)<{} bytes of {:?} repeated>\n(second \"s\") third", len, unit), "long-text", "wrong-datum-sequence", p),
+            }
+        },
+        Acc::merge,
+        acc_zero,
+    );
+    let acc = Acc::merge(Acc::merge(Acc::merge(a1, a2), a3), a4);
     rep.rule = format!(
-        "(a) every concatenation of <= {} lexemes over {:?} ({} texts) and every string of <= 3 characters over a 30-character alphabet with 1-4 byte characters ({} texts): scan, span invariants, datum-by-datum parse against a pushdown recogniser over token types, parse_text loop; (b) every token-boundary prefix of {} well-formed datum sequences (written container chains of depth <= {}, singly, in pairs and in triples). Non-trivial = a text containing a datum the reference accepts or finds incomplete (counted once per distinct text; lexeme sequences that spell another lexeme by juxtaposition and one-character strings already covered are not counted), or a prefix that ends strictly inside a datum.",
+        "(a) every concatenation of <= {} lexemes over {:?} ({} texts) and every string of <= 3 characters over a 30-character alphabet with 1-4 byte characters ({} texts): scan, span invariants, datum-by-datum parse against a pushdown recogniser over token types, parse_text loop; (b) every token-boundary prefix of {} well-formed datum sequences (written container chains of depth <= {}, singly, in pairs and in triples); (c) three data with a gap of every length 0..=9000 bytes after the first (four fillers: blanks, line ends, comment lines that look like code or hold brackets and quotes): the parse_text loop visits exactly the three data and every remaining text begins at a token. Non-trivial = a text containing a datum the reference accepts or finds incomplete (counted once per distinct text; lexeme sequences that spell another lexeme by juxtaposition and one-character strings already covered are not counted), or a prefix that ends strictly inside a datum.",
         n_lex, LEXEMES, n1, n2, total, depth
     );
     rep.extra("soup_texts", json!(n1));
